@@ -24,10 +24,121 @@ def _bits_of_J(e):
 
 def _ceil_div(e, num_pred, den_pred):
     """(num + den - 1) / den"""
+    if is_call(e, "div_ceil") and len(e[3]) == 2:
+        return num_pred(e[3][0]) and den_pred(e[3][1])
     if not is_bin(e, "Div") or not den_pred(e[3]):
         return False
     n = e[2]
     return is_bin(n, "Sub") and n[3] == ("int", 1) and is_bin(n[2], "Add") and num_pred(n[2][2]) and den_pred(n[2][3])
+
+
+def canon_bits(e):
+    """`size_of::<T>() * 8` (either order) -> T::BITS, so that both spellings of a word width compare equal"""
+    if not isinstance(e, tuple) or not e:
+        return e
+    if is_bin(e, "Mul"):
+        for x, y in ((e[2], e[3]), (e[3], e[2])):
+            if _size_of(x) and y == ("int", 8) and len(x) > 4 and x[4]:
+                return ("assoc", "BITS", "Constants::BITS", (x[4][0],))
+    if e[0] == "assoc" and e[1] == "BITS" and len(e) > 3:
+        return ("assoc", "BITS", "Constants::BITS", e[3])
+    if e[0] == "cast" and e[2] == "usize":
+        inner = canon_bits(e[1])
+        if inner[0] == "assoc" and inner[1] == "BITS":
+            return inner
+        return ("cast", inner, e[2])
+    return tuple(canon_bits(y) if isinstance(y, tuple) else y for y in e)
+
+
+def _bits_of(e, T=None):
+    e = canon_bits(e)
+    return e[0] == "assoc" and e[1] == "BITS" and len(e) > 3 and (T is None or e[3] == (T,))
+
+
+def _pool(crate, b):
+    """every expression of the body: the returned value, each call, and the bodies of the closures they mention
+    (captures replaced by the captured expressions)"""
+    from . import storage
+    out = [b.return_expr()]
+    for bb, t, fn in b.iter_calls():
+        out.append(b.e_call(t))
+    seen = set()
+    k = 0
+    while k < len(out):
+        for x in mir.walk(out[k]):
+            if isinstance(x, tuple) and x[:1] == ("closure",) and len(x) == 3 and x[1] not in seen:
+                seen.add(x[1])
+                sc = storage.subst_closure(crate, x)
+                if sc is not None:
+                    out.append(sc[0])
+                    for bb, t, fn in sc[1].iter_calls():
+                        out.append(sc[1].e_call(t))
+        k += 1
+    return out
+
+
+def accessor(crate, b, inner_name):
+    """Length-masked accessor `get_int(idx)` / `set_int(idx, v)` of a vector, judged on three facts rather than on its
+    layout: (1) the storage word is accessed through the slice-level accessor at the same idx, (2) the value is ANDed
+    with mask(self.length - idx * J::BITS), (3) the slice-level access happens only where idx * J::BITS < self.length.
+    -> (verdict, message); forms the rule cannot read (access inside a closure, another API) are undecided."""
+    idx = ("param", b.local_name(2))
+    inner = []
+    for bb, t, fn in b.iter_calls():
+        if fn and fn["name"] == inner_name:
+            e = b.e_call(t)
+            if e[0] == "call" and e[3] and mir.contains(e[3][0], lambda x: x == ("field", SELF, "data")):
+                inner.append((bb, e))
+    if not inner:
+        return "undecided", "%s does not reach the storage through the slice-level %s in its own body: not decided" % (b.name, inner_name)
+    J = None
+    for bb, e in inner:
+        if not mir.lin_eq(e[3][1], idx):
+            return "violation", "storage is accessed at `%s`, not at idx" % show(e[3][1])
+        if len(e) > 4 and e[4]:
+            J = e[4][-1]
+    want = canon_bits(("bin", "Sub", SELF_LEN, ("bin", "Mul", idx, ("assoc", "BITS", "Constants::BITS", (J,)))))
+    masks = []
+    for x in _pool(crate, b):
+        for y in mir.walk(x):
+            if is_bin(y, "BitAnd"):
+                for a, m in ((y[2], y[3]), (y[3], y[2])):
+                    if is_call(m, "mask") and len(m[3]) == 1:
+                        masks.append((a, canon_bits(m[3][0]), m))
+    if not masks:
+        return "violation", "the word is not masked with mask(self.length - idx * BITS)"
+    good = [m for m in masks if mir.lin_eq(m[1], want) and (len(m[2]) <= 4 or not m[2][4] or m[2][4][-1] == J)]
+    if not good:
+        return "violation", "the word is masked with mask(%s), not mask(self.length - idx * %s::BITS)" % (show(masks[0][1]), J)
+    if inner_name == "set_int":
+        val = ("param", b.local_name(3))
+        for bb, e in inner:
+            v = e[3][-1]
+            if not any(is_bin(v, "BitAnd") and ((v[2] == val and v[3] == m[2]) or (v[3] == val and v[2] == m[2])) for m in good):
+                return "violation", "stored value `%s` is not v & mask(self.length - idx*BITS)" % show(v)
+    # (3) guard
+    lhs = canon_bits(("bin", "Mul", idx, ("assoc", "BITS", "Constants::BITS", (J,))))
+    for bb, e in inner:
+        doms = guard.edges_dominating(b, bb)
+        ok = False
+        related = []
+        for sb, cond, taken, _, _ in doms:
+            for op, x, y in guard.relations_on_edge(cond, taken):
+                x, y = canon_bits(x), canon_bits(y)
+                if op == "Lt" and mir.lin_eq(x, lhs) and mir.lin_eq(y, SELF_LEN):
+                    ok = True
+                elif op == "Lt" and mir.lin_eq(x, idx) and is_call(y, "int_len") and y[3] == (SELF,) and (len(y) <= 4 or not y[4] or y[4][-1] == J):
+                    ok = True
+                elif mir.contains(x, lambda z: z == idx) and mir.contains(y, lambda z: z == SELF_LEN or is_call(z, ("len", "int_len"))):
+                    related.append("%s %s %s" % (show(x), op, show(y)))
+        if ok:
+            continue
+        if not doms:
+            return "violation", "no guard idx * BITS < self.length" if inner_name == "get_int" else "the write is not guarded by idx*BITS < self.length"
+        if related:
+            return "violation", "guarded by `%s`, which is not idx * %s::BITS < self.length" % (related[0], J)
+        return "undecided", "the conditions dominating the storage access (%s) are not in a form this rule reads" % "; ".join(show(c)[:40] for _, c, _, _, _ in doms[:2])
+    return "pass", "%s(idx) accesses storage word idx, masked with mask(len - idx*BITS), only where idx*BITS < len" % b.name
 
 
 def check(crate):
@@ -95,51 +206,23 @@ def check(crate):
             add(None, key, False, "", "function not found")
             continue
         r = b.return_expr()
-        ok = _ceil_div(r, lambda x: x == SELF_LEN or (is_call(x, "len") and x[3] == (SELF,)), _bits_of_J)
+        ok = _ceil_div(r, lambda x: x == SELF_LEN or (is_call(x, "len") and x[3] == (SELF,)),
+                       lambda x: _bits_of_J(x) or _bits_of(x, "J"))
         add(b, key, ok, "int_len::<J>() = ceil(len / (size_of::<J>() * 8))", "returns %s" % show(r))
     for fam, key in (("Bvf", "<Bvf<I, N> as IArray>::get_int"), ("Bvd", "<Bvd as IArray>::get_int")):
         b = find(key)
         if b is None:
             add(None, key, False, "", "function not found")
             continue
-        idx = ("param", b.local_name(2))
-        r = b.return_expr()
-        alts = r[2] if r[0] == "phi" else (r,)
-        none_ok = any(show(a).endswith("None") for a in alts)
-        some = [a for a in alts if is_call(a, "map")]
-        ok = none_ok and len(some) == 1 and len(alts) == 2
-        msg = ""
-        if ok:
-            m = some[0]
-            inner = m[3][0]
-            ok = is_call(inner, "get_int") and inner[3][1] == idx and mir.contains(inner[3][0], lambda x: x == ("field", SELF, "data"))
-            if not ok:
-                msg = "word is not read from self.data at idx: %s" % show(inner)
-        if ok:
-            from . import storage
-            sc = storage.subst_closure(crate, some[0][3][1]) if some[0][3][1][0] == "closure" else None
-            okc = False
-            if sc is not None:
-                body_e, cb = sc
-                v = ("param", cb.local_name(2))
-                if is_bin(body_e, "BitAnd"):
-                    for a, mm in ((body_e[2], body_e[3]), (body_e[3], body_e[2])):
-                        if a == v and is_call(mm, "mask") and is_bin(mm[3][0], "Sub") and mm[3][0][2] == SELF_LEN \
-                                and is_bin(mm[3][0][3], "Mul") and idx in (mm[3][0][3][2], mm[3][0][3][3]):
-                            okc = True
-            ok = okc
-            if not ok:
-                msg = "the word is not masked with mask(self.length - idx * BITS)"
-        if ok:
-            g = False
-            for sb, cond, ts, fs in guard.cond_edges(b):
-                if is_bin(cond, "Lt") and is_bin(cond[2], "Mul") and idx in (cond[2][2], cond[2][3]) and cond[3] == SELF_LEN:
-                    g = True
-            ok = g
-            if not ok:
-                msg = "no guard idx * BITS < self.length"
-        add(b, key, ok, "get_int(idx) = Some(word & mask(len - idx*BITS)) iff idx*BITS < len, else None",
-            msg or "get_int has an unexpected shape: %s" % show(r)[:120])
+        v, why = accessor(crate, b, "get_int")
+        if v == "pass":
+            # every path that skips the storage read returns None
+            r = b.return_expr()
+            alts = r[2] if r[0] == "phi" else (r,)
+            if not any(show(a).endswith("None") for a in alts):
+                v, why = "violation", "get_int never returns None: %s" % show(r)[:100]
+        res.append((b, "DEFS " + key, v, why if v != "pass" else
+                    "get_int(idx) = Some(word & mask(len - idx*BITS)) iff idx*BITS < len, else None"))
     # --- significant_bits, repeat ---------------------------------------------------------------------------
     b = find("BitVector::significant_bits")
     if b is not None:
